@@ -7,11 +7,14 @@ import (
 	"bytes"
 	"fmt"
 	"os"
+	"sync"
 	"testing"
 
+	"github.com/canopy-network/canopy/fsm"
 	"github.com/canopy-network/canopy/lib"
 	"github.com/canopy-network/canopy/lib/crypto"
 	"github.com/canopy-network/canopy/store"
+	"github.com/cockroachdb/pebble/v2/vfs"
 	"pgregory.net/rapid"
 
 	"verif/h/ev"
@@ -51,6 +54,12 @@ func runChain(t *rapid.T, rec *ev.Rec) {
 	sim := nodesim.NewSim()
 	defer sim.Close()
 	w := nodesim.GenWorld(t, 1)
+	// 1 chain in 5 is LONG: it starts from a snapshot of a 97-height chain (built once per process by one node running
+	// alone on a fixed committee) so that the generated heights cross the first checkpoint height (100)
+	long := rapid.SampledFrom([]bool{true, false, false, false, false}).Draw(t, "longChain") || os.Getenv("VERIF_C11_LONG") == "1" // (env: development aid)
+	if long {
+		w.NVals, w.Stakes = len(longStakes), append([]uint64(nil), longStakes...)
+	}
 	ring := nodesim.NewKeyRing(w.NVals + w.Spare)
 	// a small block size makes the oversize path of the proposer reachable with a handful of transactions
 	blockSize := rapid.SampledFrom([]uint64{0, 0, lib.MaxBlockHeaderSize + 600, lib.MaxBlockHeaderSize + 1200, lib.MaxBlockHeaderSize + 2500}).Draw(t, "blockSize")
@@ -60,13 +69,29 @@ func runChain(t *rapid.T, rec *ev.Rec) {
 		blockSize = 0
 	}
 	cs.ClassIf(blockSize != 0, "small-block-size")
+	if long {
+		blockSize = 0
+	}
 	gen := w.Genesis(blockSize)
+	var snapshot *vfs.MemFS
 	mk := func(name string, key int) *nodesim.Node {
-		n, err := sim.NewNode(nodesim.NodeOpts{Name: name, Genesis: gen, Key: keys.BLS(key % w.NVals)})
+		o := nodesim.NodeOpts{Name: name, Genesis: gen, Key: keys.BLS(key % w.NVals)}
+		if snapshot != nil {
+			o.FS = nodesim.CloneOf(snapshot)
+		}
+		n, err := sim.NewNode(o)
 		if err != nil {
 			t.Fatalf("new node: %v", err)
 		}
 		return n
+	}
+	var prefixCerts []*lib.QuorumCertificate
+	if long {
+		fs, certs, err := longPrefix(gen, ring)
+		if err != nil {
+			t.Fatalf("long prefix: %v", err)
+		}
+		snapshot, prefixCerts = fs, certs
 	}
 	a, b := mk("A", 0), mk("B", 1)
 	g := &nodesim.Group{Sim: sim, Ring: ring, Nodes: []*nodesim.Node{a, b}}
@@ -76,32 +101,13 @@ func runChain(t *rapid.T, rec *ev.Rec) {
 	}
 	k := rapid.IntRange(2, 5).Draw(t, "heights")
 	var certified []*lib.QuorumCertificate
-	// 1 chain in 10 is LONG: node A alone runs 97 (empty) heights, B catches up from A's archive, and the generated heights
-	// then cross the first checkpoint height (100: checkpoint in the certificate results, certificate checks while syncing)
-	if rapid.SampledFrom([]int{0, 1, 2, 3, 4, 5, 6, 7, 8, 9, 10, 11}).Draw(t, "longChain") == 0 || os.Getenv("VERIF_C11_LONG") == "1" { // (env: development aid, forces the long mode)
-		solo := &nodesim.Group{Sim: sim, Ring: ring, Nodes: []*nodesim.Node{a}}
-		for a.Height() < 98 {
-			r, err := solo.Step(nodesim.StepOpts{Proposer: 0, Paths: map[int]nodesim.Path{0: nodesim.PathReplay}})
-			if err != nil || !r.OK() {
-				fatalf("long prefix height %d: %v %v", a.Height(), err, r.Err())
-			}
-			certified = append(certified, r.QC)
-		}
-		for h := uint64(1); h < 98; h++ {
-			q, e := a.Serve(h)
-			if e != nil {
-				fatalf("VIOLATION C11: A cannot serve height %d: %v", h, e)
-			}
-			if _, e = b.Deliver(q, true); e != nil {
-				fatalf("VIOLATION C11: B cannot sync height %d of the long prefix: %v", h, e)
-			}
-		}
-		b.FinishSync()
+	if long {
+		certified = append(certified, prefixCerts...)
 		if k < 4 {
 			k = 4
 		}
 		cs.Class("long-chain(crosses checkpoint height 100)")
-		cs.Desc("prefix of 97 empty heights")
+		cs.Desc("starts from the 97-height snapshot")
 	}
 	stale := map[uint64]served{} // what a node served for its TOP height (before the next block re-indexed the last certificate)
 	dropped, reencIncluded, oversize := false, false, false
@@ -260,12 +266,19 @@ func runChain(t *rapid.T, rec *ev.Rec) {
 		}
 		cs.Class("archive-served-after-restart")
 	}
+	cFrom := uint64(1)
+	if long && rapid.IntRange(0, 3).Draw(t, "cFromGenesis") != 0 {
+		cFrom = uint64(len(prefixCerts)) + 1 // C starts from the snapshot too and syncs only the generated heights (across height 100)
+	} else {
+		snapshot = nil // a really fresh node
+		cs.ClassIf(long, "long-chain:C-syncs-from-genesis")
+	}
 	c := mk("C", 2)
 	live := rapid.IntRange(0, 3).Draw(t, "cLivePath") == 0 // C receives the blocks as gossip (full verification) instead of sync
 	cs.ClassIf(live, "C=live-path")
 	cs.ClassIf(!live, "C=sync-path")
 	coldRead := false
-	for h := uint64(1); h <= top; h++ {
+	for h := cFrom; h <= top; h++ {
 		src := rapid.IntRange(0, 2).Draw(t, "source")
 		var sv served
 		switch {
@@ -408,4 +421,40 @@ func genMix(t *rapid.T, w *nodesim.World, height uint64) []nodesim.Tx {
 		out = append(out, base) // the canonical original next to its re-encoding (same sign bytes, different hash)
 	}
 	return out
+}
+
+// ---- long chains: a 97-height prefix built once per process ----
+
+var longStakes = []uint64{3, 2, 2, 1}
+
+var longCache struct {
+	once  sync.Once
+	fs    *vfs.MemFS
+	certs []*lib.QuorumCertificate
+	err   error
+}
+
+// longPrefix runs one node alone for 97 empty heights on the fixed committee and returns a snapshot of its file system and
+// the certificates of those heights. (Block times come from canopy's wall clock: the snapshot is per process.)
+func longPrefix(gen *fsm.GenesisState, ring nodesim.KeyRing) (*vfs.MemFS, []*lib.QuorumCertificate, error) {
+	longCache.once.Do(func() {
+		sim := nodesim.NewSim()
+		defer sim.Close()
+		a, err := sim.NewNode(nodesim.NodeOpts{Name: "prefix", Genesis: gen, Key: keys.BLS(0)})
+		if err != nil {
+			longCache.err = err
+			return
+		}
+		solo := &nodesim.Group{Sim: sim, Ring: ring, Nodes: []*nodesim.Node{a}}
+		for a.Height() < 98 {
+			r, err := solo.Step(nodesim.StepOpts{Proposer: 0, Paths: map[int]nodesim.Path{0: nodesim.PathReplay}})
+			if err != nil || !r.OK() {
+				longCache.err = fmt.Errorf("prefix height %d: %v %v", a.Height(), err, r.Err())
+				return
+			}
+			longCache.certs = append(longCache.certs, r.QC)
+		}
+		longCache.fs, longCache.err = a.CloneFS()
+	})
+	return longCache.fs, longCache.certs, longCache.err
 }
